@@ -96,7 +96,7 @@ def dataOf (id : Nat) (prov : List (Str × Layer)) (kw : List (Str × Val)) : Li
       | .kwarg k => Except.ok (kwGet k kw)
       | .const v => .ok v
       | .inject key dflt => injectSpec prov key dflt
-      | .selfId => .ok (.str ('I' :: 'D' :: natStr id ++ ['Z']))) with
+      | .selfId => .ok (.idBox id)) with
     | .ok v => dataOf id prov kw rest (setL out v acc)
     | .error e => .error e
 
